@@ -39,6 +39,7 @@ type c19target struct {
 	file   string // path that must be created on success
 	opens  int
 	closes *int
+	std    *os.File // stdout/stderr targets: the stream standing in for the name
 }
 
 const (
@@ -55,10 +56,11 @@ const (
 	tkRelPath
 	tkFileUpperScheme
 	tkFileEscaped
+	tkStdStream // the special names "stdout" and "stderr"
 	nTargetKinds
 )
 
-var c19kindNames = [...]string{"zsim", "zsim-fails", "file-url", "bare-path", "file-localhost", "missing-dir", "is-a-dir", "invalid-url", "unknown-scheme", "upper-case-scheme", "relative-path", "file-upper-case-scheme", "file-escaped-path"}
+var c19kindNames = [...]string{"zsim", "zsim-fails", "file-url", "bare-path", "file-localhost", "missing-dir", "is-a-dir", "invalid-url", "unknown-scheme", "upper-case-scheme", "relative-path", "file-upper-case-scheme", "file-escaped-path", "stdout/stderr"}
 
 var c19badURLs = []string{
 	"file://user:pw@localhost%s",
@@ -91,7 +93,7 @@ type c19sink struct {
 func (w *c19world) target(g *zsim.Stream, f *zsim.Stream) *c19target {
 	w.n++
 	t := &c19target{}
-	t.kind = g.Weighted(5, 2, 3, 2, 1, 1, 1, 2, 1, 1, 1, 1, 1)
+	t.kind = g.Weighted(5, 2, 3, 2, 1, 1, 1, 2, 1, 1, 1, 1, 1, 1)
 	name := fmt.Sprintf("t%d", w.n)
 	switch t.kind {
 	case tkSim, tkSimFail, tkUpperScheme:
@@ -144,6 +146,17 @@ func (w *c19world) target(g *zsim.Stream, f *zsim.Stream) *c19target {
 		}
 		t.file = filepath.Join(w.dir, name+".log")
 		t.raw = rel
+		t.ok = true
+	case tkStdStream:
+		// the process's standard streams stand in for these names; for the run
+		// they are files outside the scratch directory (so that they do not
+		// count as descriptors the operation left open). They are never closed
+		// by zap, whatever happens to the other targets.
+		if g.Chance(2) {
+			t.raw, t.std = "stdout", os.Stdout
+		} else {
+			t.raw, t.std = "stderr", os.Stderr
+		}
 		t.ok = true
 	case tkMissingDir:
 		t.raw = pick(g, "file://", "") + filepath.Join(w.dir, "no-such-dir", name+".log")
@@ -206,6 +219,32 @@ func runC19(c *Ctx) {
 	defer os.RemoveAll(dir)
 	w := &c19world{c: c, dir: dir, table: map[string]func(u *url.URL) (zap.Sink, error){}}
 	useSimScheme(w.table)
+	// standard streams of the run: two files outside the scratch directory
+	stdDir, err := os.MkdirTemp(base, "c19std-")
+	if err != nil {
+		panic(err)
+	}
+	defer os.RemoveAll(stdDir)
+	so, err1 := os.Create(filepath.Join(stdDir, "stdout"))
+	se, err2 := os.Create(filepath.Join(stdDir, "stderr"))
+	if err1 != nil || err2 != nil {
+		panic("cannot create stand-ins for the standard streams")
+	}
+	realOut, realErr := os.Stdout, os.Stderr
+	os.Stdout, os.Stderr = so, se
+	defer func() {
+		os.Stdout, os.Stderr = realOut, realErr
+		so.Close()
+		se.Close()
+	}()
+	defer func() {
+		// whatever the operation did, it never closes a standard stream
+		for _, f := range []*os.File{so, se} {
+			if _, err := f.Stat(); err != nil && !c.R.Failed() {
+				c.Fail("C19: a standard stream was closed", "%s: %v", f.Name(), err)
+			}
+		}
+	}()
 	switch g.Weighted(4, 3, 2, 2) {
 	case 0:
 		c19open(w)
@@ -322,7 +361,7 @@ func c19open(w *c19world) {
 		}
 	}
 	nWrites := 1 + g.Draw(3)
-	var all []byte
+	var all [][]byte
 	for i := 0; i < nWrites; i++ {
 		pl := payload
 		if i > 0 {
@@ -333,7 +372,7 @@ func c19open(w *c19world) {
 			c.Fail("C19: the writer returned by Open does not accept a write", "(%d, %v)", n, werr)
 			return
 		}
-		all = append(all, pl...)
+		all = append(all, pl)
 	}
 	_ = ws.Sync()
 	closeFn()
@@ -358,11 +397,20 @@ func c19open(w *c19world) {
 
 // after success + close: every target got the payload exactly once, was
 // opened once and closed once; a file target created exactly its path.
-func (w *c19world) checkDelivered(what string, ts []*c19target, payload []byte) {
+func (w *c19world) checkDelivered(what string, ts []*c19target, writes [][]byte) {
 	c := w.c
 	seen := map[string]int{}
 	for _, t := range ts {
 		seen[t.raw]++
+	}
+	payload := bytes.Join(writes, nil)
+	// a destination named k times receives every write k times
+	rep := func(k int) []byte {
+		var out []byte
+		for _, wr := range writes {
+			out = append(out, bytes.Repeat(wr, k)...)
+		}
+		return out
 	}
 	for _, t := range ts {
 		switch {
@@ -375,13 +423,19 @@ func (w *c19world) checkDelivered(what string, ts []*c19target, payload []byte) 
 				c.Fail("C19: a configured destination did not receive the write exactly once", "%s target %s holds %q", what, t.raw, t.sink.Data)
 				return
 			}
+		case t.std != nil:
+			b, _ := os.ReadFile(t.std.Name())
+			if !bytes.Equal(b, rep(seen[t.raw])) {
+				c.Fail("C19: a configured destination did not receive the write exactly once", "%s standard stream %s holds %q", what, t.raw, b)
+				return
+			}
 		case t.file != "":
 			b, err := os.ReadFile(t.file)
 			if err != nil {
 				c.Fail("C19: a file URL did not open exactly its path", "%s target %s: %v", what, t.raw, err)
 				return
 			}
-			if !bytes.Equal(b, bytes.Repeat(payload, seen[t.raw])) {
+			if !bytes.Equal(b, rep(seen[t.raw])) {
 				c.Fail("C19: a configured destination did not receive the write exactly once", "%s file %s holds %q", what, t.file, b)
 				return
 			}
@@ -436,6 +490,11 @@ func c19build(w *c19world) {
 	cfg.Sampling = nil
 	cfg.EncoderConfig = encCfg()
 	cfg.OutputPaths, cfg.ErrorOutputPaths = nil, nil
+	cfg.Development = g.Chance(3)
+	initial := g.Chance(3)
+	if initial {
+		cfg.InitialFields = map[string]interface{}{"zeta": 1, "alpha": "x"}
+	}
 	allOK := true
 	for _, t := range outs {
 		cfg.OutputPaths = append(cfg.OutputPaths, t.raw)
@@ -487,18 +546,64 @@ func c19build(w *c19world) {
 		w.checkUndone("Config.Build", all, fd0)
 		return
 	}
-	lg.Info("built")
+	nEntries := 1 + g.Draw(3)
+	for i := 0; i < nEntries; i++ {
+		lg.Info(fmt.Sprintf("built-%d", i))
+	}
 	_ = lg.Sync()
+	seen := map[string]int{}
+	for _, t := range outs {
+		seen[t.raw]++
+	}
 	for _, t := range outs {
 		var data []byte
 		if t.sink != nil {
 			data = t.sink.Data
+		} else if t.std != nil {
+			data, _ = os.ReadFile(t.std.Name())
 		} else if t.file != "" {
 			data, _ = os.ReadFile(t.file)
 		}
-		if n := bytes.Count(data, []byte(`"msg":"built"`)); n < 1 {
-			c.Fail("C19: a configured output of a built logger did not receive the entry", "target %s holds %q", t.raw, data)
+		for i := 0; i < nEntries; i++ {
+			if n := bytes.Count(data, []byte(fmt.Sprintf(`"msg":"built-%d"`, i))); n != seen[t.raw] {
+				c.Fail("C19: a configured output of a built logger did not receive every entry exactly once", "target %s: entry %d of %d found %d times in %q", t.raw, i, nEntries, n, data)
+				return
+			}
+		}
+		if initial && !bytes.Contains(data, []byte(`"alpha":"x","zeta":1`)) {
+			c.Fail("C19: a built logger does not carry the configured initial fields", "target %s holds %q", t.raw, data)
 			return
+		}
+	}
+	// the error outputs are destinations too: an internal error (here: an
+	// output whose device fails) is reported on every one of them
+	var victim *c19target
+	for _, t := range outs {
+		if t.sink != nil {
+			victim = t
+		}
+	}
+	if victim != nil && len(errs) > 0 && c.F.Chance(2) {
+		victim.sink.FailFrom, victim.sink.FailErr = victim.sink.Writes+1, errors.New("injected device failure")
+		c.Fault("destination-misbehaves")
+		lg.Info("entry to a failing output")
+		seenE := map[string]int{}
+		for _, t := range errs {
+			seenE[t.raw]++
+		}
+		for _, t := range errs {
+			var data []byte
+			if t.sink != nil {
+				data = t.sink.Data
+			} else if t.std != nil {
+				data, _ = os.ReadFile(t.std.Name())
+			} else if t.file != "" {
+				data, _ = os.ReadFile(t.file)
+			}
+			if n := bytes.Count(data, []byte("injected device failure")); n != seenE[t.raw] {
+				c.Fail("C19: a configured error output of a built logger did not receive the internal error exactly once", "error output %s holds %q", t.raw, data)
+				return
+			}
 		}
 	}
 	// Build has no close function; release what the harness can reach
@@ -526,7 +631,11 @@ func c19redirect(w *c19world) {
 	sink := zsim.NewSimSink(c.R, "std", 1, 1)
 	lg := zap.New(zapcore.NewCore(zapcore.NewJSONEncoder(encCfg()), sink, zapcore.DebugLevel))
 	useNew := g.Chance(3)
-	c.Describe("member=redirect api=%s level=%d flags=%d prefix=%q", map[bool]string{true: "NewStdLogAt", false: "RedirectStdLogAt"}[useNew], lvl, flags, prefix)
+	plain := !useNew && g.Chance(3) // RedirectStdLog: no level argument, logs at info
+	if plain {
+		lvl, valid = zapcore.InfoLevel, true
+	}
+	c.Describe("member=redirect api=%s level=%d flags=%d prefix=%q", map[bool]string{true: "NewStdLogAt", false: map[bool]string{true: "RedirectStdLog", false: "RedirectStdLogAt"}[plain]}[useNew], lvl, flags, prefix)
 	c.MixState(uint64(uint8(lvl))<<8 | uint64(flags))
 	c.Nontrivial = !valid
 	if !valid {
@@ -549,7 +658,13 @@ func c19redirect(w *c19world) {
 		}
 		return
 	}
-	restore, err := zap.RedirectStdLogAt(lg, lvl)
+	var restore func()
+	var err error
+	if plain {
+		restore = zap.RedirectStdLog(lg)
+	} else {
+		restore, err = zap.RedirectStdLogAt(lg, lvl)
+	}
 	if (err == nil) != valid {
 		c.Fail("C19: RedirectStdLogAt accepted an invalid level or refused a valid one", "level %d: %v", lvl, err)
 		return
@@ -576,6 +691,14 @@ func c19redirect(w *c19world) {
 	restore()
 	if log.Flags() != flags || log.Prefix() != prefix {
 		c.Fail("C19: the restore function of RedirectStdLogAt did not restore flags and prefix", "flags %d -> %d, prefix %q -> %q", flags, log.Flags(), prefix, log.Prefix())
+		return
+	}
+	// (the restore function is documented to reset the output to os.Stderr,
+	// not to the previous writer; the statement does not speak about it)
+	before := len(sink.Data)
+	log.Print("after restore")
+	if len(sink.Data) != before {
+		c.Fail("C19: after the restore function of a std-log redirection the standard logger still reaches the zap logger", "%q", sink.Data[before:])
 	}
 }
 
@@ -590,9 +713,13 @@ func c19register(w *c19world) {
 	for probe.kind != tkSim {
 		probe = w.target(g, c.F)
 	}
-	kind := g.Draw(8)
+	kind := g.Draw(9)
 	var name string
 	wantErr := true
+	if kind == 8 {
+		c19concurrentRegister(w, probe)
+		return
+	}
 	switch kind {
 	case 0:
 		name = ""
@@ -621,7 +748,7 @@ func c19register(w *c19world) {
 			ename = "console"
 		default:
 			c19regCounter++
-			ename = fmt.Sprintf("zenc-%d-%d", os.Getpid(), c19regCounter)
+			ename = fmt.Sprintf(pick(g, "zenc-%d-%d", "ZEnc-%d-%d", "zencX%d_%d"), os.Getpid(), c19regCounter)
 			ewant = false
 		}
 		called := 0
@@ -654,6 +781,27 @@ func c19register(w *c19world) {
 		}
 		if err == nil && called != 1 {
 			c.Fail("C19: a registered encoder is not used by Config.Build", "name %q: constructor called %d times", ename, called)
+			return
+		}
+		if err == nil {
+			// the name is taken now: a second registration fails and changes nothing
+			called2 := 0
+			err2 := zap.RegisterEncoder(ename, func(cfg zapcore.EncoderConfig) (zapcore.Encoder, error) {
+				called2++
+				return zapcore.NewConsoleEncoder(cfg), nil
+			})
+			if err2 == nil {
+				c.Fail("C19: RegisterEncoder accepted an empty or taken name or refused a fresh one", "name %q registered a second time: accepted", ename)
+				return
+			}
+			if lg2, berr := cfg.Build(); berr != nil {
+				c.Fail("C19: after a registration attempt a built-in or just registered encoder cannot be used", "encoding %q: %v", cfg.Encoding, berr)
+			} else {
+				lg2.Info("y")
+				if called2 != 0 || called != 2 {
+					c.Fail("C19: a refused encoder registration replaced the registered constructor", "name %q: first constructor called %d times in 2 builds, second %d times", ename, called, called2)
+				}
+			}
 		}
 		return
 	}
@@ -693,5 +841,85 @@ func c19register(w *c19world) {
 			return
 		}
 		cl2()
+	}
+}
+
+// c19concurrentRegister: 2-3 tasks register the same fresh scheme (or encoder
+// name) at once under a seeded schedule. "Already registered ... fails without
+// changing the registry": exactly one registration succeeds, and the name is
+// served by that one's factory from then on.
+func c19concurrentRegister(w *c19world, probe *c19target) {
+	c, g, r := w.c, w.c.G, w.c.R
+	nTasks := 2 + g.Draw(2)
+	encoder := g.Chance(3)
+	c19regCounter++
+	name := fmt.Sprintf("zrace%d.%d", os.Getpid(), c19regCounter)
+	if encoder {
+		name = fmt.Sprintf("zrace-enc-%d-%d", os.Getpid(), c19regCounter)
+	}
+	c.Describe("member=register concurrently tasks=%d encoder=%v name=%q policy=%s", nTasks, encoder, name, r.Policy)
+	c.MixState(uint64(nTasks)<<4 | b2u(encoder))
+	c.Nontrivial = true
+	errs := make([]error, nTasks)
+	calls := make([]int, nTasks)
+	for t := 0; t < nTasks; t++ {
+		t := t
+		r.Go(fmt.Sprintf("t%d", t), func() {
+			variant := name
+			if !encoder && t%2 == 1 {
+				variant = strings.ToUpper(name) // schemes are case-insensitive: the same scheme
+			}
+			if encoder {
+				errs[t] = zap.RegisterEncoder(variant, func(cfg zapcore.EncoderConfig) (zapcore.Encoder, error) {
+					calls[t]++
+					return zapcore.NewJSONEncoder(cfg), nil
+				})
+			} else {
+				errs[t] = zap.RegisterSink(variant, func(u *url.URL) (zap.Sink, error) {
+					calls[t]++
+					return c19sink{zsim.NewSimSink(r, "raced", 1, 1), &c19target{}}, nil
+				})
+			}
+			zsim.Yield(zsim.KOp, nil)
+		})
+	}
+	c.Sim()
+	winner, won := -1, 0
+	for t, e := range errs {
+		if e == nil {
+			winner = t
+			won++
+		}
+	}
+	if won != 1 {
+		c.Fail("C19: concurrent registrations of one name did not end with exactly one of them accepted", "name %q, %d tasks: %d accepted (errors %v)", name, nTasks, won, errs)
+		return
+	}
+	if encoder {
+		cfg := zap.NewProductionConfig()
+		cfg.EncoderConfig = encCfg()
+		cfg.OutputPaths, cfg.ErrorOutputPaths = []string{probe.raw}, nil
+		cfg.Encoding = name
+		if _, err := cfg.Build(); err != nil {
+			c.Fail("C19: after a registration attempt a built-in or just registered encoder cannot be used", "encoding %q: %v", name, err)
+			return
+		}
+	} else {
+		_, cl, err := zap.Open(name + "://h/p")
+		if err != nil {
+			c.Fail("C19: a freshly registered scheme cannot be opened", "Open(%s://h/p): %v", name, err)
+			return
+		}
+		cl()
+	}
+	for t := range calls {
+		want := 0
+		if t == winner {
+			want = 1
+		}
+		if calls[t] != want {
+			c.Fail("C19: a refused registration replaced the registered factory", "name %q: the accepted registration was task %d's, factory calls per task %v", name, winner, calls)
+			return
+		}
 	}
 }
